@@ -623,6 +623,28 @@ def run(ctx):
         ctx.ob("C16.e", us.qual, ok_rb, f"a reported {idn} - any value - is stored in self.{attr_}; an absent one leaves it alone", func=us.qual, file=us.module.rel,
                construct=f"read-back of {idn}", detail={"stored": show(v_)[:160] if v_ else None},
                fail=f"self.{attr_} does not take every reported value of {idn} (the store is gated by the value's truth, or missing): a change to False / 0 / OFF is never read back")
+    # the two legacy breeze ids: a reported *off* (present and false) replaces the mode as well - it is not skipped as if it were absent
+    bmv = final_env.get(f"{us.params[0]}._breeze_mode") if final_env else None
+    old_bm = ("attr", ("param", us.params[0]), "_breeze_mode")
+    gps = {}
+    for x in subterms(bmv) if bmv is not None else ():
+        if meth_is(strip(x), "get_property") and strip(x)[2] and enum_name(strip(x)[2][0]) in ("BREEZE_CONTROL", "BREEZE_AWAY", "BREEZELESS"):
+            gps[enum_name(strip(x)[2][0])] = x
+    for idn in ("BREEZE_AWAY", "BREEZELESS"):
+        if idn not in gps or "BREEZE_CONTROL" not in gps:
+            continue
+        facts_ = [("cmp", "is", gps["BREEZE_CONTROL"], ("const", None)), ("cmp", "is not", gps[idn], ("const", None)), ("un", "not", gps[idn])]
+        facts_ += [("cmp", "is", g_, ("const", None)) for k_, g_ in gps.items() if k_ not in ("BREEZE_CONTROL", idn)]
+        for x in subterms(bmv):          # ... in the branch that handles a properties response
+            if call_is(strip(x), "isinstance") and len(strip(x)[2]) == 2 and strip(strip(x)[2][1])[0] == "global":
+                is_props = strip(strip(x)[2][1])[1].endswith(".PropertiesResponse")
+                facts_.append(strip(x) if is_props else ("un", "not", strip(x)))
+        off_v = strip(simplify(bmv, facts_))
+        keeps_old = any(z == old_bm for z in subterms(off_v)) or off_v == old_bm
+        ctx.count("readback_properties")
+        ctx.ob("C16.e", us.qual, not keeps_old, f"a reported {idn} = off replaces the breeze mode (it is not skipped like an absent property)", func=us.qual, file=us.module.rel,
+               construct=f"read-back of {idn}", detail={"when_off": show(off_v)[:120]},
+               fail=f"a reported {idn} = off leaves the breeze mode as it was (the store is gated by the value's truth): the mode keeps being reported active after the device turned it off")
     ctx.require_min("readback_properties", 5)
     rf = ctx.fn(f"{AC}.refresh")
     rfs = summarize(prog, rf)
